@@ -1,7 +1,7 @@
 """Which units / harnesses decide which property (see DESIGN.md section 5)."""
 
 A_COMMON = [
-    'A1 Verus 0.2026.09.13/z3, Kani 0.68/CBMC 6.11, rustc, and the extraction rules D1..D16 of vf/extract.py',
+    'A1 Verus 0.2026.09.13/z3, Kani 0.68/CBMC 6.11, rustc, and the extraction rules D1..D21 of vf/extract.py',
     'A2 bytes 1.8.0 (BytesMut::put_slice, Bytes::{len,split_to,clone}, Buf::{remaining,chunk,advance,copy_to_slice,get_u8}) behaves as the assumed sequence specifications in vf/spec/prelude.rs, including the documented panic preconditions; a Bytes never holds more than isize::MAX bytes',
     'A3 integer-encoding 4.0.2 VarInt::{encode_var,required_space,decode_var} for i16/i32/i64/u32 behave as zig-zag ULEB128 (assumed in Verus; proved on the real crate by the Kani harnesses a3_varint_*)',
     'A4 linkedbytes 0.1.8 bytes_mut/insert/insert_faststr and faststr len/as_ref/clone/from_bytes_unchecked: view = concatenation',
@@ -37,7 +37,7 @@ PROPS = {
                 not_covered='generated messages: only the two match tables that select the codec per scalar type (lower_ty, ty_module) are covered, as verbatim fragments; repeated/map/oneof positions of the generator and map entry layout are not covered'),
     'C07': dict(verus=['skip', 'binary', 'binary_le', 'compact_skip', 'async_skip', 'async_binary', 'async_binary_le', 'async_compact_skip', 'async_compact', 'unsafe_skip'], kani=[], assumptions=A_COMMON + ['A14 SmallVec<[SkipData; 8]> is replaced by Vec<SkipData> (rule D20): push/pop/last/last_mut/is_empty assumed to behave as Vec\'s', 'the unchecked primitive reads read_byte/read_i16/read_i32 enter Verus through their safety contract (the range read is inside the buffer) and the value statement the complete Kani harnesses c11_r_* prove on the real unsafe code'],
                 not_covered='decided: (1) the recursive default skipper and (2) the async default skipper, each against a recursive grammar of binary-protocol values (bskip_val: structs, lists, sets, maps nested to the depth limit), with the refinement obligations that TBinaryProtocol<&mut Bytes> and TAsyncBinaryProtocol<R> (both byte orders) implement the reader contracts the skippers are verified against; (3) the compact reader\'s own skipper (added by the G4 fix) against a recursive grammar of compact-protocol values (cskip_val: varints of bounded length, bool-in-header fields, short/long field headers with the i16 delta check, short/long list headers, one-byte empty map), on top of the re-verified real bodies of the compact reader: Ok(n) <=> the input starts with a well-formed value of that type occupying n bytes, which are exactly the bytes consumed, reader state (field-id stack, last id) restored; depth 0 => Err; termination by depth. (4) the async default skipper a second time, as a generic function over the compact reader contract, against the same compact grammar, with the refinement obligation for TAsyncCompactProtocol<R>. (5) the ITERATIVE skipper of the unchecked binary reader (explicit work stack, fixed-size fast paths via the table BINARY_BASIC_TYPE_FIXED_SIZE), within the documented contract of the unchecked codec (the input holds a complete well-formed value of the type): it returns exactly the size the binary value grammar assigns, advances the cursor by exactly that much, every unchecked read it issues is inside the buffer, and it terminates; the invariant interprets the work stack as a continuation of the recursive grammar (thrift_iskip_spec.rs). Not decided for the unchecked reader: behaviour on malformed input (outside its contract by design); TBinaryUnsafeInputProtocol::skip itself (re-derives the raw-pointer slice) is not extracted'),
-    'C09': dict(verus=THRIFT_UNITS + ['skip', 'compact_skip', 'async_skip', 'async_compact_skip', 'async_binary', 'async_binary_le', 'async_compact'], kani=['a3_varint_decode_total', 'rwext_read_i16', 'rwext_read_i32', 'rwext_read_i64', 'rwext_read_u64'], assumptions=A_COMMON,
+    'C09': dict(verus=THRIFT_UNITS + ['skip', 'compact_skip', 'async_skip', 'async_compact_skip', 'appexc', 'async_binary', 'async_binary_le', 'async_compact'], kani=['a3_varint_decode_total', 'rwext_read_i16', 'rwext_read_i32', 'rwext_read_i64', 'rwext_read_u64'], assumptions=A_COMMON,
                 not_covered=NOT_GEN + '; unchecked (unsafe) readers are outside the checked-reader scope of C09'),
     'C10': dict(verus=['prost'], kani=['pb_varint_decode_total', 'pb_varint_decode_value', 'pb_varint_roundtrip', 'pb_varint_chain'], assumptions=A_COMMON[:1] + ['decode_varint_slice (unsafe, unrolled) enters Verus through an assumed contract (Ok((v, k)) <=> the slice starts with a well-formed varint of value v and length k); Kani pb_varint_decode_total / pb_varint_decode_value prove that statement on the real code for every input of 0..=11 bytes; that longer slices behave like their first 10 bytes is read off the unrolled code, not proved', 'derive(Clone) of DecodeContext replaced by its field-wise expansion; core::cmp::min redirected to a usize wrapper'],
                 not_covered='decided: decode_varint (dispatch, slow path loop with the shift-and-or accumulation proved equal to the base-128 value), decode_key, check_wire_type, WireType::try_from, DecodeContext::{enter_recursion,limit_reached}: Ok(v) <=> the input starts with a well-formed varint / key, v is its value, exactly its bytes are consumed; skip_field against a recursive grammar of unknown fields (pskip/pgroup: groups end at the end-group key with the group\'s own field number, nest to the recursion budget, length prefixes larger than the input are rejected): Ok <=> well-formed, consumption exact, terminates with the budget as measure. Not decided: merge_loop (FnMut closure), bytes/string/message/group/map merge, Message::merge_length_delimited, wrappers in types.rs and generated merge_field'),
